@@ -270,7 +270,7 @@ func siteMatches(p *Program, pat string, in ssa.Instruction) (string, bool) {
 			return "", false
 		}
 		target := n.Obj().Name() + "." + pt.Elem().Underlying().(*types.Struct).Field(fa.Field).Name()
-		if target != f[1] {
+		if target != f[1] && !(strings.HasPrefix(f[1], "*.") && strings.HasSuffix(target, f[1][1:])) {
 			return "", false
 		}
 		if len(f) >= 4 && f[2] == "const" {
@@ -611,6 +611,35 @@ func valuePath(v ssa.Value) string {
 		}
 	case *ssa.BinOp:
 		return valuePath(x.X) + x.Op.String() + valuePath(x.Y)
+	case *ssa.Slice:
+		// the argument list of a variadic call: `new [n]T (varargs)` filled by constant-index stores
+		if al, ok := x.X.(*ssa.Alloc); ok && al.Comment == "varargs" && x.Low == nil && x.High == nil {
+			elems := map[int64]string{}
+			max := int64(-1)
+			for _, r := range *al.Referrers() {
+				ia, ok := r.(*ssa.IndexAddr)
+				if !ok {
+					continue
+				}
+				k, ok := ia.Index.(*ssa.Const)
+				if !ok || k.Value == nil {
+					continue
+				}
+				for _, r2 := range *ia.Referrers() {
+					if st, ok := r2.(*ssa.Store); ok && st.Addr == ssa.Value(ia) {
+						elems[k.Int64()] = valuePath(st.Val)
+						if k.Int64() > max {
+							max = k.Int64()
+						}
+					}
+				}
+			}
+			var parts []string
+			for i := int64(0); i <= max; i++ {
+				parts = append(parts, elems[i])
+			}
+			return "[" + strings.Join(parts, ",") + "]"
+		}
 	case *ssa.Index:
 		return valuePath(x.X) + "[" + valuePath(x.Index) + "]"
 	case *ssa.IndexAddr:
